@@ -19,18 +19,22 @@ TRUSTED = [
 ASSUMPTIONS = [
     "iterations >= 1 and time-period >= 1 when given (track schema); target throughput > 0; Poisson draws >= 0; durations >= 0",
     "custom (plugin) schedulers are out of scope: deterministic, poisson, unthrottled only",
+    "the ramp-up clause is evaluated for elements whose explicit `clients` is not below the sum of their sub-tasks' clients (no over-commit)",
+    "the specification of a task is what its parameters say when it is scheduled (after track processors such as --test-mode)",
     "time-based stop is read as: every request is preceded by a loop-control check before warmup+period; at most one request per client is issued later",
 ]
 
 
 def gen_exact(ctx):
     for _ in range(ctx.budget):
-        yield ec.gen_case(ctx.rng, True, "loop")
+        case = ec.gen_case(ctx.rng, True, "loop")
+        yield embed(ctx.rng, case, 0.5, 0.5) if ctx.rng.random() < 0.3 else case
 
 
 def gen_float(ctx):
     for _ in range(ctx.budget):
-        yield ec.gen_case(ctx.rng, False, "loop")
+        case = ec.gen_case(ctx.rng, False, "loop")
+        yield embed(ctx.rng, case, 0.5, 0.5) if ctx.rng.random() < 0.3 else case
 
 
 def gen_boundary(ctx):
@@ -62,8 +66,168 @@ def gen_boundary(ctx):
         yield case
 
 
+def gen_schedule_spec(rng, max_elems=4):
+    """a whole challenge schedule as the allocator sees it: leaf tasks and parallel structures of different widths, optional
+    explicit `clients` on a parallel (equal to / above / below the sum of its sub-tasks = over-commit)"""
+    elems = []
+    nid = 0
+    for _ in range(rng.randrange(1, max_elems + 1)):
+        if rng.random() < 0.5:
+            elems.append({"leaf": True, "clients": None, "tasks": [{"id": nid, "clients": rng.choice([1, 1, 2, 2, 3, 4, 5, 8]), "cp": False, "acp": False}]})
+            nid += 1
+        else:
+            subs = []
+            for _ in range(rng.randrange(1, 4)):
+                subs.append({"id": nid, "clients": rng.choice([1, 1, 2, 2, 3, 4]), "cp": False, "acp": False})
+                nid += 1
+            if rng.random() < 0.15:
+                rng.choice(subs)["cp"] = True
+            elif rng.random() < 0.1:
+                rng.choice(subs)["acp"] = True
+            width = sum(x["clients"] for x in subs)
+            r = rng.random()
+            ov = None if r < 0.6 else (width if r < 0.8 else (width + rng.randrange(1, 4) if r < 0.9 else max(1, width - rng.randrange(1, 3))))
+            elems.append({"leaf": False, "clients": ov, "tasks": subs})
+    return elems
+
+
+def gen_task_ops(rng, case):
+    """what happens to the Task object between loading and scheduling: reads of target_throughput, parameter rewrites, --test-mode"""
+    def new_tput():
+        unit = "ops"
+        tt = ((case["task"].get("tput") or {}).get("tt") or {})
+        if tt.get("kind") == "str" and " " in tt["s"] and tt["s"].endswith("/s"):
+            unit = tt["s"].split(" ")[1][:-2]
+        v = rng.choice([1, 2, 4, 8, 0.5, 16, 3, 10, 100])
+        r = rng.random()
+        if r < 0.6:
+            return {"set_tt": {"kind": "str", "s": f"{v} {unit}/s"}}
+        if r < 0.75:
+            return {"set_tt": {"kind": "int", "v": str(int(v) or 1)}}
+        if r < 0.85:
+            return {"set_tt": None}
+        if r < 0.95:
+            return {"set_ti": {"kind": "float", "q": ec.qs(Fraction(rng.choice([0.25, 0.5, 1, 2])))}}
+        return {"set_ti": None}
+
+    r = rng.random()
+    if r < 0.25:
+        return ["read", "test_mode"]
+    if r < 0.4:
+        return ["test_mode"]
+    if r < 0.65:
+        return ["read", new_tput()]
+    ops = []
+    for _ in range(rng.randrange(1, 5)):
+        x = rng.random()
+        ops.append("read" if x < 0.4 else ("test_mode" if x < 0.55 else new_tput()))
+    return ops
+
+
+def embed(rng, case, ops_p=0.7, alloc_p=0.7):
+    """put the case's task into a whole schedule (its TaskAllocation then comes from the real Allocator) and / or let the
+    Task object go through reads, rewrites and the real TestModeTrackProcessor before it is scheduled"""
+    if rng.random() < alloc_p:
+        sched = gen_schedule_spec(rng)
+        subs = [x for e in sched for x in e["tasks"]]
+        focus = rng.choice(subs)
+        case["alloc"] = {"schedule": sched, "focus": focus["id"], "k": rng.randrange(0, focus["clients"])}
+        case["task"]["completes_parent"], case["task"]["any_completes_parent"] = focus["cp"], focus["acp"]
+        case["task"]["clients"] = focus["clients"]
+    if rng.random() < ops_p:
+        case["task_ops"] = gen_task_ops(rng, case)
+    return case
+
+
+def gen_lifecycle(ctx):
+    """throttled / ramped-up tasks taken from whole schedules through the real Allocator, after the Task object has been read,
+    rewritten and run through --test-mode"""
+    rng = ctx.rng
+    for _ in range(ctx.budget):
+        exact = rng.random() < 0.6
+        case = ec.gen_case(rng, exact, "loop")
+        t = case["task"]
+        if rng.random() < 0.5 and t["warmup_it"] is None and t["iters"] is None:
+            t["ramp_up"] = {"int": rng.choice([1, 2, 4, 8, 10])}
+            if t["warmup_t"] is None:
+                t["warmup_t"] = {"int": rng.choice([8, 10, 16])}
+        yield embed(rng, case)
+
+
 def run(ctx, case):
     ec.run_exec(ctx, case, [ec.oracle_c05])
+
+
+# ------------------------------------------------------------------------------------------------
+# ramp-up of every client of whole schedules, allocations from the real Allocator
+# ------------------------------------------------------------------------------------------------
+def gen_alloc_ramp(ctx):
+    rng = ctx.rng
+    for _ in range(ctx.budget):
+        sched = gen_schedule_spec(rng, max_elems=5)
+        ramps = {}
+        for e in sched:
+            for sub in e["tasks"]:
+                r = rng.random()
+                ramps[sub["id"]] = None if r < 0.2 else ({"int": rng.choice([1, 2, 5, 8, 10, 30, 60])} if r < 0.85 else {"float": ec.qs(Fraction(rng.choice([0.5, 2.5, rng.uniform(0, 50)])))})
+        yield {"schedule": sched, "ramps": [{"id": k, "ramp": v} for k, v in sorted(ramps.items())]}
+
+
+def run_alloc_ramp(ctx, case):
+    from esrally import track
+    from esrally.driver import driver
+
+    ramps = {r["id"]: r["ramp"] for r in case["ramps"]}
+    tasks = {}
+    whole = []
+    for e in case["schedule"]:
+        leaves = []
+        for sub in e["tasks"]:
+            tk = track.Task(f"t{sub['id']}", track.Operation(f"o{sub['id']}", "bulk", params={}), clients=sub["clients"], completes_parent=sub["cp"],
+                            any_completes_parent=sub["acp"], warmup_time_period=120, time_period=10, ramp_up_time_period=ec.num(ramps[sub["id"]]))
+            tasks[id(tk)] = sub
+            leaves.append(tk)
+        whole.append(leaves[0] if e.get("leaf") else track.Parallel(leaves, clients=e["clients"]))
+    rows = driver.Allocator(whole).allocations
+    impl = []
+    for ri, row in enumerate(rows):
+        for pi, ent in enumerate(row):
+            if isinstance(ent, driver.TaskAllocation):
+                sub = tasks[id(ent.task)]
+                w = driver.ScheduleHandle(ent, None, None, None, None).ramp_up_wait_time
+                impl.append([ri, pi, sub["id"], ent.client_index_in_task, ent.global_client_index, ent.total_clients, str(Fraction(w))])
+    m = ctx.model("exec", "alloc_ramp", {"schedule": case["schedule"], "ramps": case["ramps"], "mode": "dbl"})
+    mm = [x[:6] + [str(Fraction(x[6]))] for x in m["r"]]
+    if mm != impl:
+        ctx.diff("allocations+ramp_up_wait_time", [x for x in mm if x not in impl][:6], [x for x in impl if x not in mm][:6])
+    # direct oracle: client i of an element (task or parallel structure) with `total` clients waits ramp-up * i / total,
+    # i counted over the element's sub-tasks in order, total = the element's OWN client count
+    by_sub = {}
+    for x in impl:
+        by_sub.setdefault(x[2], {})[x[3]] = x
+    nontrivial = False
+    for e in case["schedule"]:
+        width = sum(x["clients"] for x in e["tasks"])
+        total = e["clients"] if e.get("clients") is not None else width
+        if total < width:
+            ctx.count("oracle:overcommitted-element-skipped")
+            continue
+        off = 0
+        for sub in e["tasks"]:
+            ramp = ramps[sub["id"]]
+            rv = Fraction(0) if ramp is None else (Fraction(ramp["int"]) if "int" in ramp else Fraction(ramp["float"]))
+            for k in range(sub["clients"]):
+                x = by_sub.get(sub["id"], {}).get(k)
+                if x is None:
+                    ctx.fail("allocation-missing", f"client {k} of task {sub['id']} has no allocation", None, None)
+                    continue
+                want = rv * (off + k) / total
+                if abs(Fraction(x[6]) - want) > Fraction(1, 2**50) * want:
+                    ctx.fail("ramp-up", f"client {off + k} of {total} of the element (task {sub['id']}, client {k}) does not wait ramp-up*i/total", str(want), x[6])
+                if want > 0:
+                    nontrivial = True
+            off += sub["clients"]
+    ctx.sig([m.get("tags"), len(case["schedule"])], nontrivial=nontrivial)
 
 
 # ------------------------------------------------------------------------------------------------
@@ -353,6 +517,8 @@ STREAMS = [
     Stream("sched_exact", gen_exact, run, quick=7000, thorough=400000, shards=16),
     Stream("sched_float", gen_float, run, quick=5000, thorough=300000, shards=16),
     Stream("sched_boundary", gen_boundary, run, quick=2500, thorough=100000, shards=8),
+    Stream("task_lifecycle_allocator", gen_lifecycle, run, quick=5000, thorough=200000, shards=16),
+    Stream("allocator_ramp_up", gen_alloc_ramp, run_alloc_ramp, quick=4000, thorough=150000, shards=8),
     Stream("throughput_parse", gen_parse, run_parse, quick=12000, thorough=600000, shards=8),
     Stream("pacing_ieee", gen_pacing, run_pacing, quick=8000, thorough=400000, shards=8),
     Stream("ramp_up_wait", gen_ramp, run_ramp, quick=2000, thorough=60000, shards=4),
